@@ -261,6 +261,10 @@ def run(ck: Check) -> int:
                     real = w.call(api, sc['pats'], sc['excl'], sc['flags'], sc['limit'], sc['isb'])
             except common.CallTimeout:
                 real = {'kind': 'timeout(60s)', 'pulls': w.pulls.n, 'pos': None, 'neg': None, 'bits': None}
+            if real['kind'].startswith('timeout'):
+                # a loaded machine, not a verdict (the scenarios are sized to finish in well under a second)
+                sr.histogram['real-call-timeout (not a verdict)'] = sr.histogram.get('real-call-timeout (not a verdict)', 0) + 1
+                continue
             mod, line = w.model(drv, api, sc['pats'], sc['excl'], sc['flags'], sc['limit'], sc['isb'], (), sc['known'],
                                 want_args=True)
             sr.evaluations += 1
